@@ -5,6 +5,7 @@ static Env g_default_env;
 static Env* g_env = &g_default_env;
 Env& env() { return *g_env; }
 void set_env(Env* e) { g_env = e ? e : &g_default_env; }
+EvRegistry& registry() { static EvRegistry r; return r; }
 std::vector<Variant>& variants() { static std::vector<Variant> v; return v; }
 VariantReg::VariantReg(const char* n, Factory f, int dialect, int pol, const char* note) {
     variants().push_back(Variant{n, f, dialect, pol, note});
